@@ -274,6 +274,18 @@ def one(ctx, i, tmpdir):
             ctx.report(dict(base, field="refusal", tag="accepted_existing_output", expected="non-zero exit", observed="0"), replay)
         if sha(out_fn) != before:
             ctx.report(dict(base, field="refusal", tag="existing_output_modified", expected="untouched", observed="changed"), replay)
+        # the same existing file named as ~/<file> (a tilde the shell left alone), HOME pointing at its directory:
+        # however the name is read, the existing file keeps its bytes
+        argv[-1] = "~/" + os.path.basename(out_fn)
+        pr = subprocess.run([sys.executable, "-m", "dtverif.cli_launcher"] + argv, cwd=tmpdir,
+                            env=env.child_env({"PYTHONPATH": os.pathsep.join([env.ROOT, env.REPO, tmpdir]), "HOME": os.path.realpath(os.path.dirname(out_fn))}),
+                            capture_output=True, text=True, timeout=120)
+        ctx.event("refusal_runs_with_tilde")
+        if sha(out_fn) != before:
+            ctx.report(dict(base, field="refusal", tag="existing_output_modified", named_with_tilde=True, expected="untouched", observed="changed"), replay)
+        stray = os.path.join(tmpdir, "~")
+        if os.path.isdir(stray):
+            shutil.rmtree(stray, ignore_errors=True)
 
 
 def run(ctx):
